@@ -43,6 +43,7 @@ Sensitivity (scratch copies of /repo, quick tier or less):
 from __future__ import annotations
 
 import asyncio
+import zlib
 
 from simkit import seams
 from simkit.runner import Run, PlanError, canon, gen_knobs
@@ -94,6 +95,31 @@ DURS = [0.0, 0.1, 0.3, 0.5, 1.0]
 
 class Injected(Exception):
     pass
+
+
+class SeqTask(asyncio.Task):
+    """
+    Task with a hash that does not depend on its address. The 'start' mode keeps its output
+    tasks in a WeakSet; when the control task is cancelled by an expired stop_timeout,
+    gather() cancels them in the iteration order of that set, i.e. by hash(task). With the
+    default hash the trace of such a run differed from process to process (found when the
+    determinism self-test was run over the random part of the plan space). The order is
+    arbitrary in reality; here it is drawn from the plan's hash_salt like the order of blocks.
+    """
+    count = 0
+    salt = 0
+
+    def __init__(self, coro, **kwargs):
+        SeqTask.count += 1
+        self.c12_hash = zlib.crc32(f"{SeqTask.salt}:{SeqTask.count}".encode()) & 0x7fffffff
+        super().__init__(coro, **kwargs)
+
+    def __hash__(self):
+        return self.c12_hash
+
+
+def task_factory(loop, coro, context=None):
+    return SeqTask(coro, loop=loop, context=context)
 
 
 def gen(rng, tier, index=0):
@@ -211,9 +237,14 @@ def execute(plan, trace=False):
     run = Run(plan['knobs'])
     try:
         loop = run.loop
+        SeqTask.count = 0
+        SeqTask.salt = plan['knobs'].get('hash_salt', 0)
+        loop.set_task_factory(task_factory)
         mode = plan['mode']
         guard = plan['guard'] or 0.0
         script = {p['id']: p for p in plan['puts']}
+        if len(script) != len(plan['puts']) or 'STOP' in script:
+            raise PlanError('put ids are not unique')     # the oracle is keyed by them
         script['STOP'] = {'dur': plan.get('stop_dur', 0.0), 'fail': False, 'cancel_delay': 0}
         hist = []       # [t_ns, kind, id, extra]
         st = {'active_lo': 0, 'stopped': False, 'stop_ns': None, 'end_ns': None,
